@@ -30,6 +30,8 @@ func propC03(c *Ctx) {
 	// faults placed inside INCLUDEd files: the file that is read must be the one the INCLUDE names
 	c.ruleC14ValidateFirst()
 	c.ruleMemoCoverage("C03-MEMO-KEY-COVERS")
+	// a fault in the Tags of a method must be seen although its URL has Tags too: the method's own directive is read first
+	c.ruleTagPriority("C03-TAG-PRIORITY")
 }
 
 // orderedMapType: is t (pointer to) one of the generated ordered maps (struct with data map + order slice)?
